@@ -874,12 +874,16 @@ class Interp:
             return self.eval(node.args[1], env)
         fv = self.eval(node.func, env)
         args = []
+        kwargs = {}
         for a in node.args:
             if isinstance(a, ast.Starred):
-                args += self.concrete_items(self.need(self.eval(a.value, env)), a)
+                sv = self.need(self.eval(a.value, env))
+                if isinstance(sv, VList) and not sv.concrete:
+                    kwargs["__star__"] = sv      # f(*symbolic_list): handed to the callee's spec as a whole
+                    continue
+                args += self.concrete_items(sv, a)
             else:
                 args.append(self.eval(a, env))
-        kwargs = {}
         for k in node.keywords:
             if k.arg is None:
                 dv = self.need(self.eval(k.value, env))
@@ -1174,7 +1178,9 @@ class Interp:
             else:
                 self.raise_("TypeError", node=node)
         extra = args[len(params):]
-        if a.vararg:
+        if a.vararg and "__vararg__" in kwargs:
+            env_vars[a.vararg.arg] = kwargs.pop("__vararg__")
+        elif a.vararg:
             env_vars[a.vararg.arg] = VTuple(extra)
         elif extra:
             self.raise_("TypeError", node=node)
